@@ -393,10 +393,15 @@ def check_run(seed, shard, i, agg):
     comps_text = [lang.txt(c) for c in prog["comps"]]
     traces = []
     outer = r.choice(["~ a plain remark ~ ", "~ owner: me description: layout test ~ ", "~ reviewed: yes\n ticket: T-12 ~\n"])  # (an id/name would legitimately show up in messages)
+    preset = random.Random(f"{seed}:C17preset:{shard}:{i}").choice([None, None, None, ("OR", True), ("AND", False), ("collect_when_not_matched", True)])
+    if preset is not None:
+        agg.count("run_cases_with_api_set_mode")
     for lname, mtxt in layouts(r, comps_text):
         for oc in ("", outer) if lname == "single-space" else ("",):
             ptxt = f"{oc}$lay.csv[{prog['scan']}]{mtxt}"
             c, cap = env.new_csvpath(["collect", "print"])
+            if preset is not None:
+                setattr(c, preset[0], preset[1])  # a mode chosen through the API before the text is handed in
             with hooks.recording(agg) as rec:
                 try:
                     lines = c.collect(ptxt)
@@ -415,7 +420,7 @@ def check_run(seed, shard, i, agg):
     for lname, ptxt, tr in traces[1:]:
         for k in tr:
             if tr[k] != base[2][k]:
-                return "layout-changes-run:" + lname.split("+")[0], {"layout_a": base[1], "layout_b": ptxt, "field": k, "a": str(base[2][k])[:400], "b": str(tr[k])[:400], "rows": rows}, prog
+                return "layout-changes-run:" + lname.split("+")[0], {"layout_a": base[1], "layout_b": ptxt, "set_through_api_before_the_run": preset, "field": k, "a": str(base[2][k])[:400], "b": str(tr[k])[:400], "rows": rows}, prog
     return None, None, prog
 
 
